@@ -1,4 +1,6 @@
 import CoapVerif.Lemmas.LinkFormat
+import CoapVerif.Lemmas.WkBlock
+import CoapVerif.Props.C16
 /-
 C20 — `/.well-known/core` lists exactly the registered resources in any window / filter.
 
@@ -225,6 +227,87 @@ theorem get_query_with_space_listed :
     let q : Bytes := [0x74, 0x69, 0x74, 0x6C, 0x65, 0x3D, 0x61, 0x20, 0x62]
     getBody t [q] = R.ok (listing t []) ∧ listing t [] ≠ [] ∧ getBody t [q, [0x78]] = R.ok (listing t []) ∧
     getBody t [[0x78, 0x3D], q] = R.ok [] := by
+  decide
+
+/-! ### interleaved block-wise GETs: the Block2 response cache is keyed by the query string -/
+
+/-- the cache key (coap_get_query()'s string, C16) determines the search criterion, hence the listing; the handler's
+body is the listing: the facts `Keyed` asks for hold for every script with option values a request can carry -/
+theorem keyed_of_small (t : Table) (xs : List Xfer)
+    (hs : ∀ xf ∈ xs, C16.Small xf.opts ∧ (getListing t xf.opts).length ≤ STATUS_MAX) : Keyed t xs := by
+  refine ⟨?_, ?_, ?_⟩
+  · intro xf hx
+    exact ⟨_, C16.get_query_eq_spec xf.opts (hs xf hx).1⟩
+  · intro xf hx
+    obtain ⟨body, hb, he, _⟩ := get_reassembles t xf.opts (hs xf hx).2 1 (by omega)
+    rw [hb, he]
+  · intro xf hx yf hy k1 k2 h1 h2 hk
+    have e1 := C16.get_query_eq_spec xf.opts (hs xf hx).1
+    have e2 := C16.get_query_eq_spec yf.opts (hs yf hy).1
+    have hq : MU.getQuery xf.opts = MU.getQuery yf.opts := by
+      rw [e1] at h1; rw [e2] at h2
+      have h1 := R.ok.inj h1; have h2 := R.ok.inj h2
+      rw [e1, e2]
+      have : Spec.Uri.composeQuery xf.opts = Spec.Uri.composeQuery yf.opts := by
+        subst h1; subst h2
+        simp only [keyEq, beq_iff_eq] at hk
+        by_cases ha : Spec.Uri.composeQuery xf.opts = [] <;> by_cases hb : Spec.Uri.composeQuery yf.opts = [] <;>
+          simp [ha, hb] at hk ⊢ <;> first | exact hk | exact hk.symm | (rw [hk]) | skip
+      rw [this]
+    have hn := C16.query_injective xf.opts yf.opts (hs xf hx).1 (hs yf hy).1 hq
+    unfold getListing
+    have : xf.opts.head?.getD [] = yf.opts.head?.getD [] := by
+      unfold Spec.Uri.norm at hn
+      by_cases ha : xf.opts = [[]] <;> by_cases hb : yf.opts = [[]] <;> simp [ha, hb] at hn ⊢ <;> simp [hn]
+    rw [this]
+
+/-- (interleaving, under the keying hypothesis spelled out in `Keyed`) for ANY order in which the block requests of
+any number of transfers — any Uri-Query options, any sessions — reach the server, every transfer is exactly where
+as many turns of its own would have brought it had it been alone: it has the first blocks of ITS listing, never a
+failure, and is complete once it has had `nblocks` turns -/
+theorem interleaved_gets_reassemble_of_keyed (t : Table) (szx : Nat) (xs : List Xfer) (K : Keyed t xs)
+    (order : List Nat) (i : Nat) (xf : Xfer) (hi : xs[i]? = some xf) :
+    (runX t szx xs SState.init order).x i = xAfter (getListing t xf.opts) (2 ^ (szx + 4)) (order.count i) := by
+  have h := runX_inv t szx xs K order SState.init (fun _ => 0) (SInv_init t szx xs)
+  have := h.2 i xf hi
+  simpa using this
+
+/-- (interleaving) block-wise GETs of `/.well-known/core` for different filters (or none) may interleave in any
+order, on one session or several: every transfer that gets its `⌈len/size⌉` turns reassembles to the listing for
+ITS OWN filter, with exactly that many responses and no error; before that it holds a prefix of that listing -/
+theorem interleaved_gets_reassemble (t : Table) (szx : Nat) (xs : List Xfer)
+    (hs : ∀ xf ∈ xs, C16.Small xf.opts ∧ (getListing t xf.opts).length ≤ STATUS_MAX)
+    (order : List Nat) (i : Nat) (xf : Xfer) (hi : xs[i]? = some xf) :
+    let x := (runX t szx xs SState.init order).x i
+    let nb := nblocks (getListing t xf.opts).length (2 ^ (szx + 4))
+    x.failed = false ∧ x.buf = (getListing t xf.opts).take (x.next * 2 ^ (szx + 4)) ∧
+    (x.done = true ↔ nb ≤ order.count i) ∧
+    (nb ≤ order.count i → x.buf = getListing t xf.opts ∧ x.next = nb) := by
+  have h := interleaved_gets_reassemble_of_keyed t szx xs (keyed_of_small t xs hs) order i xf hi
+  simp only []
+  rw [h]
+  have hcpos : 0 < 2 ^ (szx + 4) := Nat.pow_pos (by omega)
+  refine ⟨by simp [xAfter], by simp [xAfter], by simp [xAfter], ?_⟩
+  intro hnb
+  simp only [xAfter, Nat.min_eq_right hnb, and_true]
+  apply List.take_of_length_le
+  exact (nblocks_le_iff _ _ _ hcpos (nblocks_pos _ _ hcpos)).mp (Nat.le_refl _)
+
+/-- completing a transfer (`drainX`) is more turns of that transfer, so the theorems above cover the scripts the
+check runs (order, then every unfinished transfer is completed) -/
+theorem drain_is_turns (t : Table) (szx : Nat) (xs : List Xfer) (i fuel : Nat) (st : SState) :
+    ∃ n, drainX t szx xs fuel st i = runX t szx xs st (List.replicate n i) :=
+  drainX_eq_runX t szx xs i fuel st
+
+/-- a concrete interleaving (`</t>;title="a b"` and `</u>`; transfer 0 unfiltered, transfer 1 `?title=a*`, block
+size 16, order 0 1 0 1 0): the hypotheses are satisfiable and the two transfers end with different bodies -/
+example :
+    let t : Table := [⟨[0x74], [⟨[0x74, 0x69, 0x74, 0x6C, 0x65], some [0x22, 0x61, 0x20, 0x62, 0x22]⟩], false, false⟩,
+                      ⟨[0x75], [], false, false⟩]
+    let xs : List Xfer := [⟨0, []⟩, ⟨0, [[0x74, 0x69, 0x74, 0x6C, 0x65, 0x3D, 0x61, 0x2A]]⟩]
+    let st := runX t 0 xs SState.init [0, 1, 0, 1, 0]
+    (st.x 0).buf = listing t [] ∧ (st.x 0).next = 2 ∧ (st.x 1).buf = (listing t []).take 16 ∧ (st.x 1).done = true ∧
+    (st.x 0).buf ≠ (st.x 1).buf := by
   decide
 
 /-! ### non-vacuity: concrete instances, and the behaviour the three `fix:` commits removed -/
